@@ -5,6 +5,7 @@ import GrVerif.Proofs.FsmSafe
 import GrVerif.Proofs.CursorShape
 import GrVerif.Proofs.CodeCursor
 import GrVerif.Proofs.MapBound
+import GrVerif.Proofs.DataSafe
 import GrVerif.Gen.SlotMap
 import GrVerif.Props.C07
 /-!
@@ -224,7 +225,23 @@ example : Pass.MAX_SLOTS = Gen.SlotMap.MAX_SLOTS ∧ Pass.MAX_SLOTS + 2 = Gen.Sl
 /-- **the pipeline, every text, every font whose rule code passed the loader's cursor tests**: the `map` register never leaves
 `m_slot_map[MAX_SLOTS + 2]` (the array of the repaired `Rule.h`; with the pinned `MAX_SLOTS + 1` cells a rule of 63 slots wrote one past it) -/
 theorem map_register_stays_inside_the_slot_map (font : Font) (hf : fontOK font = true) (text : List Nat) (fuel : Nat) (dir : Nat) {w : String}
-    (e : shape font text fuel dir = .error w) : ¬ mapFault w := fun h => shape_noNullCursor font hf text fuel dir e (.inr h)
+    (e : shape font text fuel dir = .error w) : ¬ mapFault w := fun h => shape_noNullCursor font hf text fuel dir e (.inr (.inl h))
+
+/-- every translated opcode body declares exactly the operands the regenerated opcode table gives its opcode, and reads only those:
+started with `dp = d` on a data area of `d + n` bytes it makes no read outside it and ends with `dp = d + n` -/
+theorem every_opcode_reads_its_own_operands (opc : Nat) (op : VmM Unit) (h : scalarOp opc = some op) : ∃ n, OpDP n op ∧ tablePsz opc = some n ∧ n ≤ 4 :=
+  scalar_dp opc op h
+
+/-- code as the pipeline model decodes it (`mkCode`): every instruction carries the operands the table gives it, the data area is their
+concatenation, and a run of it never reads an operand outside the data area -/
+theorem code_reads_only_its_own_operands {bytes : List Nat} {isAction : Bool} {k : Code} (h : mkCode bytes isAction = some k) (s : St)
+    (hs : s.vm = initVm k.data) {w : String} (e : Action.runLoop k.instrs s = .fault w) : w ≠ "data" :=
+  runLoop_data k.instrs s (by rw [hs]; exact (mkCode_data h).2) (mkCode_data h).1 e
+
+/-- **the pipeline, every text, every font whose rule code passed the loader's cursor tests**: no operand is read outside a code's data
+area (`Machine::run`'s `param[i]` after `declare_params(n)`; nothing at run time tests `dp`) -/
+theorem no_operand_read_outside_the_code (font : Font) (hf : fontOK font = true) (text : List Nat) (fuel : Nat) (dir : Nat) {w : String}
+    (e : shape font text fuel dir = .error w) : w ≠ "data" := fun h => shape_noNullCursor font hf text fuel dir e (.inr (.inr h))
 
 /-- **the hypothesis comes from the loader**: action code that `Machine::Code`'s loading constructor (as modelled in `Model/CodeLoad`,
 tied to the real loader by the C01 correspondence) accepts passes the cursor tests from `(pre_context, rule_length)`, and is flagged
